@@ -46,10 +46,12 @@ func patternToMatcher(root, pattern string) (matcher, error) {
 	return regexGlob{regex: regex}, nil
 }
 
+// regexEscaper escapes the characters that are special in a regex but are literals in a glob.
+// A ^ directly after [ negates a character class in both, so that one is left alone.
+var regexEscaper = strings.NewReplacer("[^", "[^", "+", `\+`, ".", `\.`, "(", `\(`, ")", `\)`, "{", `\{`, "}", `\}`, "|", `\|`, "^", `\^`, "$", `\$`)
+
 func toRegexString(pattern string) string {
-	pattern = "^" + pattern + "$"
-	pattern = strings.ReplaceAll(pattern, "+", "\\+")         // escape +
-	pattern = strings.ReplaceAll(pattern, ".", "\\.")         // escape .
+	pattern = "^" + regexEscaper.Replace(pattern) + "$"
 	pattern = strings.ReplaceAll(pattern, "?", ".")           // match ? as any single char
 	pattern = strings.ReplaceAll(pattern, "*", "[^/]*")       // handle single (all) * components
 	pattern = strings.ReplaceAll(pattern, "[^/]*[^/]*", ".*") // handle ** components
